@@ -35,7 +35,7 @@ CONTROLS = [
     ('g6-le-after-lt', 'G6', 'syn', 'binary_operator:shadow', [(PARSER + 'expressions/operators.rs',
         '            symbol("<="),\n            symbol("<"),', '            symbol("<"),\n            symbol("<="),', 1)]),
     ('g7-keyword-without-boundary', 'G7', 'syn', 'keyword:no-boundary', [(PARSER + 'utils.rs',
-        'terminated(map(tag(t), into_locate), peek(none_of(AZ09_))),', 'map(tag(t), into_locate),', 0)]),
+        'terminated(map(tag(t), into_locate), peek(none_of(AZ09_DOLLAR))),', 'map(tag(t), into_locate),', 0)]),
     ('g7b-lookahead-raw-tag', 'G7', 'syn', 'else_group_of_lines:lookahead-no-boundary', [(CD, 'peek(not(directive_word("`endif"))),', 'peek(not(tag("`endif"))),', 1)]),
     ('g8-chandle-as-event', 'G8', 'syn', 'keyword-variant:chandle', [(PARSER + 'declarations/net_and_variable_types.rs',
         'map(keyword("chandle"), |x| DataType::Chandle(Box::new(x))),', 'map(keyword("chandle"), |x| DataType::Event(Box::new(x))),', 1)]),
@@ -169,6 +169,11 @@ CONTROLS = [
     ('t4-unwrap-node-searches-per-kind', 'T4', 'syn', 'unwrap_node:first-match', [(API,
         '            for x in $n {\n                match x {\n                    $($crate::RefNode::$ty(x) => return Some($crate::RefNode::$ty(x)),)*\n                    _ => (),\n                }\n            }\n            None',
         '            let mut nodes = $n.into_iter();\n            $(\n                if let Some(x) = nodes.find(|x| matches!(x, $crate::RefNode::$ty(_))) {\n                    return Some(x);\n                }\n            )*\n            None', 1)]),
+    ('x8-macro-level-spends-include-budget', 'X8', 'syn', 'cycle-couples-budgets', [(PPF,
+        '                false,\n                strip_comments,\n                resolve_depth,\n                include_depth,\n            )?;',
+        '                false,\n                strip_comments,\n                resolve_depth,\n                include_depth + 1,\n            )?;', 1)]),
+    ('g7-keyword-boundary-without-dollar', 'G7', 'syn', 'keyword:boundary-alphabet', [(PARSER + 'utils.rs',
+        'terminated(map(tag(t), into_locate), peek(none_of(AZ09_DOLLAR))),', 'terminated(map(tag(t), into_locate), peek(none_of(AZ09_))),', 0)]),
     ('s1-version-stack-not-reset', 'S1', 'mir', 'not-reset:CURRENT_VERSION', [(PARSER + 'lib.rs', '    clear_directive();\n    clear_version();\n}', '    clear_directive();\n}', 1)]),
     ('s2-grammar-function-exported', 'S2', 'mir', 'source_text', [(PARSER + 'source_text/system_verilog_source_text.rs', 'pub(crate) fn source_text(s: Span)', 'pub fn source_text(s: Span)', 1)]),
     ('s3-scope-leak-on-error-path', 'S3', 'mir', 'text_macro_usage:unbalanced', [(CD,
